@@ -201,6 +201,89 @@ PROPS["C03"] = {
     ],
 }
 
+EVAL_RUN_QUICK = {"name": "verifHarnessUnifyExact", "params": {"DOMAIN": 0, "DIGITS": 1, "EXP": 0, "STRLEN": 1, "NCONJ": 2}}
+
+PROPS["C03"]["runs"].append({
+    "pkg": "./internal/core/adt",
+    "harness": ["adt/common.go", "adt/validate.go", "adt/unify.go"],
+    "apdmodel": True,
+    "entries": {
+        "quick": [EVAL_RUN_QUICK],
+        "thorough": [
+            {"name": "verifHarnessUnifyExact", "params": {"DOMAIN": 2, "DIGITS": 1, "EXP": 0, "STRLEN": 1, "NCONJ": 2}},
+            {"name": "verifHarnessUnifyExact", "params": {"DOMAIN": 0, "DIGITS": 2, "EXP": 0, "STRLEN": 1, "NCONJ": 2}},
+            {"name": "verifHarnessUnifyExact", "params": {"DOMAIN": 1, "DIGITS": 1, "EXP": 0, "STRLEN": 1, "NCONJ": 2}},
+        ],
+    },
+})
+PROPS["C03"]["claim"] += " In addition the REAL evaluator (Vertex.Finalize: scheduler, insertValueConjunct, updateNodeType, SimplifyBounds, validateValue) is executed symbolically on every pair of conjuncts drawn from atoms, basic types and bounds plus an arbitrary probe atom: the atom unifies exactly when it satisfies every conjunct, the result is then that atom, bottom arises only when no atom fits, and a pinned number is never a different one."
+PROPS["C03"]["bounds"]["quick"] += "; real evaluator: every pair of conjuncts over numbers (int/float, |coefficient| < 10, exponent 0; types int/float/number/top; bounds with the six operators) and an arbitrary probe number"
+PROPS["C03"]["bounds"]["thorough"] += "; real evaluator: every pair of conjuncts over null/bool/numbers/strings/bytes (<= 1 byte), all eight basic types, all bounds"
+PROPS["C03"]["outside"] = ["regexp bounds", "more than two conjuncts besides the probe (three with duplicate/top)", "predeclared range names (A03.4)", "NaN/Infinity", "how conjuncts arise from references, comprehensions and disjunctions"]
+
+PROPS["C01"] = {
+    "level": "model_checking",
+    "claim": "Bounded symbolic model checking of order independence for the scalar fragment on the REAL evaluator: for every pair of conjuncts (atoms, basic types, bounds) and an arbitrary probe atom, unifying them in declaration order, reversed, interleaved with the probe, with a duplicated conjunct and with an extra top gives the same success/failure and the same value; plus the order-free kernels (arc-type meet, default-mode combination, symmetry of bound simplification) are commutative, associative and idempotent.",
+    "note": "Trusted: go/ssa, the executor, z3, the decimal contract model. Outside (most of the property): field/declaration permutation in structs, file order, structure sharing, closedness, cycles, disjunction order - anything that needs struct values or references.",
+    "technique": "bounded symbolic execution of adt.Vertex.Finalize (the real scheduler and conjunct insertion) on permuted/duplicated symbolic scalar conjuncts; outcomes compared by z3",
+    "bounds": {
+        "quick": "conjunct pairs over strings/bytes (<= 1 byte) with types and bounds, probe <= 2 bytes: orders (c1,c2,p), (p,c2,c1), (c1,p,c2,c1,top); arc types: all values; default modes: all values",
+        "thorough": "conjunct pairs over the full scalar domain (null, bool, numbers, strings, bytes; all basic types; all bounds)",
+    },
+    "outside": ["structs, lists, references, comprehensions, disjunctions, closedness, cycles, files"],
+    "assumptions": APD_ASSUMPTIONS,
+    "validate": [{"kind": "apdgrid"}],
+    "runs": [
+        {
+            "pkg": "./internal/core/adt",
+            "harness": ["adt/common.go", "adt/order.go"],
+            "apdmodel": True,
+            "entries": {"quick": ["verifHarnessArcTypeMeet", "verifHarnessDefaultModeAlgebra"], "thorough": ["verifHarnessArcTypeMeet", "verifHarnessDefaultModeAlgebra"]},
+        },
+        {
+            "pkg": "./internal/core/adt",
+            "harness": ["adt/common.go", "adt/validate.go", "adt/unify.go"],
+            "apdmodel": True,
+            "entries": {
+                "quick": [{"name": "verifHarnessUnifyExact", "params": {"DOMAIN": 1, "DIGITS": 1, "EXP": 0, "STRLEN": 1, "NCONJ": 2}}],
+                "thorough": [{"name": "verifHarnessUnifyExact", "params": {"DOMAIN": 2, "DIGITS": 1, "EXP": 0, "STRLEN": 1, "NCONJ": 2}}],
+            },
+        },
+    ],
+}
+
+PROPS["C02"] = {
+    "level": "model_checking",
+    "claim": "Bounded totality of the units this framework executes from C02's anchors: on every source of the length bound the scanner terminates within 2*len+2 calls, never panics, indexes out of range or dereferences nil; adt.BinOp on every pair of scalar operands and every binary operator returns a scalar or a *Bottom; the real evaluator on every pair of scalar conjuncts returns without panic (implicit assertions of the C01/C03 harnesses). This is the thinnest claim in the manifest.",
+    "note": "Trusted: go/ssa, the executor, z3. Outside: parser, compiler, evaluator beyond the scalar fragment, cycle detection, export, CLI, stack depth, memory, byte-identical repeatability.",
+    "technique": "bounded symbolic execution with implicit panic/index/nil/termination assertions on every path (scanner.Scan, adt.BinOp, Vertex.Finalize on scalar conjuncts)",
+    "bounds": {
+        "quick": "scanner: every source of <= 3 bytes (comments on); BinOp: every operator x every pair of atoms (null, bool, int/float < 10^3 with exponent in [-1,1], string/bytes <= 2 bytes)",
+        "thorough": "scanner <= 4 bytes in both modes",
+    },
+    "outside": ["parser, compiler, export, CLI", "repeatability of output", "resource bounds"],
+    "assumptions": APD_ASSUMPTIONS,
+    "runs": [
+        {
+            "pkg": "./cue/scanner",
+            "harness": ["scanner/total.go"],
+            "entries": {
+                "quick": [{"name": "verifHarnessScanTotal", "params": {"N": 3}}],
+                "thorough": [{"name": "verifHarnessScanTotal", "params": {"N": 4}}, {"name": "verifHarnessScanTotal", "params": {"N": 4, "MODE": 0}}],
+            },
+        },
+        {
+            "pkg": "./internal/core/adt",
+            "harness": ["adt/common.go", "adt/validate.go", "adt/total.go"],
+            "apdmodel": True,
+            "entries": {
+                "quick": [{"name": "verifHarnessBinOpTotal", "params": {"DIGITS": 3, "EXP": 1, "STRLEN": 2}}],
+                "thorough": [{"name": "verifHarnessBinOpTotal", "params": {"DIGITS": 6, "EXP": 2, "STRLEN": 3}}],
+            },
+        },
+    ],
+}
+
 PROPS["C06"] = {
     "level": "model_checking",
     "claim": "Bounded symbolic model checking of /repo's own arithmetic plumbing over the validated decimal contract model: BinOp + - * give the exact value with the int/float kind the spec prescribes (or an error); IntDiv/IntMod/IntQuo/IntRem satisfy the Euclidean and truncated identities for all sign combinations and reject a zero divisor; the six comparison operators agree with one total order by value (numbers across int/float, strings and bytes bytewise); every spelling the scanner accepts as a number literal within the length bound denotes exactly the value of an independent evaluator of the spec grammar (all bases, separators, exponents, SI/IEC multipliers). A silent-rounding defect of integer arithmetic was found and repaired; float precision (34 digits) and fractional multiplier products are recorded known findings.",
@@ -287,6 +370,37 @@ PROPS["C15"] = {
                     {"name": "verifHarnessCheckZipCollisions", "params": {"N": 3, "MODE": 0}},
                     {"name": "verifHarnessCheckZipCollisions", "params": {"N": 4, "MODE": 1}},
                     "verifHarnessCheckZipSizes",
+                ],
+            },
+        },
+    ],
+}
+
+PROPS["C18"] = {
+    "level": "model_checking",
+    "claim": "Bounded model checking of the REAL workflow controller executed from go/ssa: flow.New (task discovery, dependency discovery through references, cycle check) and Controller.Run (runLoop, markReady, isReady, updateTaskValue/updateTaskResults/updateValue with the real CUE evaluator) on workflows generated from every dependency relation over N tasks, with every completion order of the task goroutines and every pattern of task failures explored as choices: each task runs at most once, only after everything it references completed successfully and with those results visible in its value; all tasks run when none fails; a failure is reported and nothing depending on the failed task starts; a dependency cycle is an error and no task on it starts.",
+    "note": "Trusted: go/ssa, the executor and its cooperative goroutine/channel model (a goroutine runs to completion when the controller blocks on its select; which one is an explored choice - exact for the controller's goroutines, whose only interaction is the final send on taskCh), context never cancelled, CUE_EXPERIMENT/CUE_DEBUG unset. Counterexamples of this check are replayed in the executor with all choices fixed (native replay cannot force a goroutine schedule). Outside: cancellation, services/deferred tasks, UpdateFunc, tasks appearing during the run, data races.",
+    "technique": "exhaustive symbolic-execution exploration of schedule, outcome and relation choice variables over the real tools/flow code and the real evaluator (CUE source generated per path, parsed, compiled and evaluated inside the executor)",
+    "bounds": {
+        "quick": "N = 3 tasks: every acyclic reference relation (task j may reference any i < j) x every failure pattern x every completion order; every relation with cycles over 3 tasks (64 relations)",
+        "thorough": "N = 4 tasks (64 acyclic relations x 16 failure patterns x all orders; 4096 arbitrary relations)",
+    },
+    "outside": ["context cancellation", "services, deferred and inferred tasks", "UpdateFunc", "real goroutine preemption / data races"],
+    "assumptions": ["context.WithCancel/Background replaced by a never-cancelled context", "task results are written to Task.update directly (Task.Fill's Go-value conversion uses reflection)"],
+    "runs": [
+        {
+            "pkg": "./tools/flow",
+            "harness": ["flow/run.go"],
+            "native_replay": False,
+            "fuel": 50000000,
+            "entries": {
+                "quick": [
+                    {"name": "verifHarnessFlowAcyclic", "params": {"N": 3}},
+                    {"name": "verifHarnessFlowCycles", "params": {"N": 3}},
+                ],
+                "thorough": [
+                    {"name": "verifHarnessFlowAcyclic", "params": {"N": 4}},
+                    {"name": "verifHarnessFlowCycles", "params": {"N": 4}},
                 ],
             },
         },
